@@ -397,7 +397,7 @@ def judge_explain_view_period(rec, rnd, tmp, k):
             return
         cat_of = {'City Power': 'Bills', 'Corner Cafe': 'Food', 'Ski Pass': 'Seasonal', 'Snow Cafe': 'Seasonal'}
         tag_of = {'City Power': set(), 'Corner Cafe': {'treat'}, 'Ski Pass': {'winter'}, 'Snow Cafe': {'winter', 'treat'}}
-        for extra, want in ([(['--category', c], {n for n in regular if cat_of[n] == c}) for c in ('Seasonal', 'Food', 'seasonal')] +
+        for extra, want in ([(['--category', c], {n for n in regular if cat_of[n].lower() == c.lower()}) for c in ('Seasonal', 'Food', 'seasonal')] +
                             [(['--tags', tg], {n for n in regular if tg in tag_of[n]}) for tg in ('winter', 'treat')] + [([], regular)]):
             pe = B.tally(root, 'explain', '--view', 'Regular', *extra, cfg, '--format', 'json')
             rec.count('cli_runs')
